@@ -19,7 +19,7 @@ import subprocess
 import sys
 import time
 
-ROOT = "/verif"
+ROOT = os.path.dirname(os.path.dirname(os.path.abspath(__file__)))
 SPEC = ROOT + "/spec"
 HARNESS = ROOT + "/harness"
 BIN = HARNESS + "/target/release"
